@@ -73,7 +73,9 @@ def make_element(e):
     if t == 'motor':
         kw = {}
         if e.get('i0') is not None:
-            kw = dict(no_load_electric_current=mkq(e['i0']), maximum_electric_current=mkq(e['imax']))
+            kw['no_load_electric_current'] = mkq(e['i0'])
+        if e.get('imax') is not None:
+            kw['maximum_electric_current'] = mkq(e['imax'])          # a data sheet may give only one of the two currents
         return mo.DCMotor(name=e['name'], inertia_moment=mkq(e['J']), no_load_speed=mkq(e['w0']), maximum_torque=mkq(e['Tmax']), **kw)
     if t == 'fly':
         return mo.Flywheel(name=e['name'], inertia_moment=mkq(e['J']))
@@ -127,6 +129,9 @@ def make_load(b, load):
             # online monitor at the load hook: a run that computes far more instants than its duration allows is stopped here
             # (otherwise a runaway time loop would only ever show up as a watchdog timeout, i.e. inconclusive)
             raise RunawayRun(f'more than {b.max_calls} load evaluations: the run computes instants far beyond the requested simulation time')
+        if load.get('numpy'):
+            import numpy as _np          # a load function written with numpy (the documentation's own examples use np.exp / np.sin)
+            return Torque(_np.float64(load_value(load, t, p, w)) / _np.float64(fac), lu)
         if units_cycle:
             u_ = units_cycle[len(b.pt.time) % len(units_cycle)]    # a load function whose branches return different torque units (keyed by the instant, so that a rerun sees the same units)
             return Torque(load_value(load, t, p, w) / SI.FACT['Torque'][u_], u_)
@@ -256,7 +261,8 @@ def build(spec, hooks=True):
     order = int(spec.get('order', 0))
 
     def set_load():
-        b.last.external_torque = external_torque
+        if not spec.get('forget_load'):          # the load is assigned later, by a 'setload' operation of the schedule
+            b.last.external_torque = external_torque
 
     def set_ic():
         apply_ic(b)
@@ -292,6 +298,12 @@ def build(spec, hooks=True):
         b.pt = G_.Powertrain(motor=b.motor)
     for f_ in post:
         f_()
+    if spec.get('forget_load'):
+        b.captures = []
+        saved, b.spec = b.spec, dict(spec, schedule=[{'op': 'badrun', 'how': 'noload'}])
+        run_schedule(b)
+        b.spec = saved
+        b.last.external_torque = external_torque
     b.is_probe = False
     if b.stop is None and spec.get('probe'):
         b.stop = make_probe(b)
@@ -317,6 +329,10 @@ def apply_ic(b, units=None):
         # the same initial conditions written in other units (harness conversion)
         from . import gen as GEN
         pos, spd = GEN.reexpress(pos, units.get('pos', pos['u'])), GEN.reexpress(spd, units.get('speed', spd['u']))
+    if ic.get('numpy'):
+        # initial conditions read from arrays (a snapshot cell, a measured series): numpy.float64 values, which ARE floats
+        import numpy as _np
+        pos, spd = dict(pos, v=_np.float64(pos['v'])), dict(spd, v=_np.float64(spd['v']))
     b.last.angular_position = mkq(pos)
     b.last.angular_speed = mkq(spd)
     if ic.get('pwm') is not None:
@@ -532,6 +548,35 @@ def run_schedule(b, on_capture=None):
             apply_ic(b, op.get('units'))
         elif o == 'newsolver':
             b.solver = g().Solver(powertrain=b.pt)
+        elif o == 'badrun':
+            # a call of Solver.run the library rejects while checking its arguments (documented TypeError / ValueError): it
+            # leaves no trace, whatever follows is unaffected. Observed here: exception class and the frame condition.
+            un = g().un
+            how = op['how']
+            before = (len(b.pt.time), [(el.name, v, len(sr)) for el in b.pt.elements for v, sr in el.time_variables.items()])
+            dtq, Tq = un.TimeInterval(1, 'ms'), un.TimeInterval(20, 'ms')
+            kw = dict(time_discretization=dtq, simulation_time=Tq, motor_control=b.control, stop_condition=None)
+            if how == 'types':
+                kw['time_discretization'] = un.Time(1, 'ms')
+            elif how == 'dt_ge_T':
+                kw['simulation_time'] = un.TimeInterval(1, 'ms') if op.get('equal') else un.TimeInterval(0.5, 'ms')
+            elif how == 'control_type':
+                kw['motor_control'] = 'pwm'
+            elif how == 'stop_type':
+                kw['stop_condition'] = lambda: True
+            try:
+                b.solver.run(**kw)
+                outcome = 'accepted'
+            except (TypeError, ValueError) as ex:
+                outcome = type(ex).__name__
+            except Exception as ex:
+                outcome = 'other:' + type(ex).__name__
+            after = (len(b.pt.time), [(el.name, v, len(sr)) for el in b.pt.elements for v, sr in el.time_variables.items()])
+            b.rejected_runs = getattr(b, 'rejected_runs', 0) + 1
+            if outcome not in ('TypeError', 'ValueError') or after != before:
+                b.rejected_run_effects = getattr(b, 'rejected_run_effects', []) + [
+                    {'how': how, 'outcome': outcome, 'instants_before': before[0], 'instants_after': after[0],
+                     'series_changed': [x for x, y in zip(after[1], before[1]) if x != y][:4]}]
         elif o == 'setload':
             # the user assigns ANOTHER load function to the loaded element (between two histories)
             b.cur_load = op['load']
